@@ -1120,7 +1120,12 @@ fn emit_target(ctx: &mut Ctx, unit: &Unit, t: &Target) -> Emitted {
             die(&format!("internal: loop {} clauses of target {} were not placed", n, t.name));
         }
     }
-    out.push_str(&lowered_body);
+    if t.any_impl {
+        // helper without a contract: only its (lowered) signature is visible to callers
+        out = format!("#[verifier::external_body]\n{}{{ unimplemented!() }}", out);
+    } else {
+        out.push_str(&lowered_body);
+    }
     out.push('\n');
     if let Some(tail) = &t.tail {
         out.push_str(tail);
@@ -1400,17 +1405,29 @@ fn main() {
         for (fi, info) in functions.iter().enumerate() {
             let caller = match known_targets.iter().find(|t| t.name == info["target"].as_str().unwrap_or("")) { Some(c) => c.clone(), None => continue };
             let _ = fi;
-            if caller.impl_of.is_none() { continue; }
             for c in info["calls"].as_array().cloned().unwrap_or_default() {
                 let name = c.as_str().unwrap_or("").to_string();
                 if name.is_empty() || defined.contains(&name) || new_targets.iter().any(|t| t.fn_name == name) { continue; }
-                let probe = Target { name: format!("auto_{}", name), file: caller.file.clone(), impl_of: caller.impl_of.clone(),
-                    fn_name: name.clone(), in_impl: caller.in_impl.clone(), spec_file: caller.spec_file.clone(), any_impl: true,
-                    serves: caller.serves.clone(), ..Default::default() };
-                let file = ctx.file(&probe.file).clone();
-                let mut found = Vec::new();
-                find_fn_in_items(&file.items, &probe, &mut found);
-                if found.len() == 1 { new_targets.push(probe); }
+                let file = ctx.file(&caller.file).clone();
+                // a method of the same type first, then a free function of the same file
+                let mut chosen: Option<Target> = None;
+                if caller.impl_of.is_some() {
+                    let probe = Target { name: format!("auto_{}", name), file: caller.file.clone(), impl_of: caller.impl_of.clone(),
+                        fn_name: name.clone(), in_impl: caller.in_impl.clone(), spec_file: caller.spec_file.clone(), any_impl: true,
+                        serves: caller.serves.clone(), ..Default::default() };
+                    let mut found = Vec::new();
+                    find_fn_in_items(&file.items, &probe, &mut found);
+                    if found.len() == 1 { chosen = Some(probe); }
+                }
+                if chosen.is_none() {
+                    let probe = Target { name: format!("auto_{}", name), file: caller.file.clone(), impl_of: None,
+                        fn_name: name.clone(), in_impl: None, spec_file: caller.spec_file.clone(), any_impl: true,
+                        serves: caller.serves.clone(), ..Default::default() };
+                    let mut found = Vec::new();
+                    find_fn_in_items(&file.items, &probe, &mut found);
+                    if found.len() == 1 { chosen = Some(probe); }
+                }
+                if let Some(t) = chosen { new_targets.push(t); }
             }
         }
         if new_targets.is_empty() { break; }
